@@ -20,7 +20,7 @@ from typing import Any
 import reactivex.operators as ops
 
 from ..common import UnitResult, case_rng, chunks, show, strict
-from ..single import SUB_AT, cut_after_terminal, make_input, run_single, show_timed
+from ..single import SUB_AT, cut_after_terminal, make_input, match_expected, run_single, show_timed
 from ..vlab import Lab, gen_timeline, show_timeline
 from . import _c15_time as T
 
@@ -30,7 +30,10 @@ RULE = ("seeded random cases: operator (debounce, its alias throttle_with_timeou
         "sample with a period, sample with a sampler observable) x clock (TestScheduler / HistoricalScheduler) x due-time "
         "shape (int, float, timedelta) x scheduler given to the operator or to subscribe x hot/cold coarse-grid timeline "
         "(0..7 elements, same-instant bursts, gaps equal to the parameter, C/E/never with an element pending); throttle "
-        "observables / samplers are probe sources; non-trivial = the subscriber is offered >= 1 element; distinct = "
+        "observables / samplers are probe sources; every eighth case additionally a feedback case: the source is a Subject and the "
+        "subscriber pushes the next element into it from inside its on_next (i.e. from inside the operator's timer / throttle / "
+        "sampler delivery), the chain of elements must come out one per due time / tick, with flush or tick-completion when the "
+        "source completes quietly or with the last element pending; non-trivial = the subscriber is offered >= 1 element; distinct = "
         "digest of (operator, parameters, clock, timeline)")
 ASSUMPTIONS = ["TestScheduler / HistoricalScheduler are the clock (their ordering is checked independently by C28)",
                "probe sources and probe observers are harness code (conforming here)",
@@ -47,7 +50,9 @@ REQUIRED = {"set:ops": len(OPSET), "set:clocks": 2, "set:shapes": 3,
             "throttle_first_gap_equals_window": {"quick": 20, "thorough": 400},
             "twm_coinciding": {"quick": 10, "thorough": 200},
             "sample_tick_coincides": {"quick": 20, "thorough": 400},
-            "sample_nothing_new_at_tick": {"quick": 20, "thorough": 400}}
+            "sample_nothing_new_at_tick": {"quick": 20, "thorough": 400},
+            "feedback_cases": {"quick": 2000, "thorough": 60000},
+            "feedback_elements_pushed_from_inside_a_delivery": {"quick": 4000, "thorough": 120000}}
 DUES = [0, 1, 4, 5, 5, 6, 10, 10, 15, 20, 2.5]
 WINDOWS = [1, 4, 5, 5, 6, 10, 10, 15, 20, 2.5]
 PERIODS = [4, 5, 5, 7, 10, 10, 15, 20]
@@ -403,10 +408,97 @@ def run_case(seed: int, idx: int, res: UnitResult) -> None:
                       {"seed": seed, "idx": idx})
 
 
+FEEDBACK_OPS = ["debounce", "throttle_with_timeout", "throttle_with_mapper", "sample_period", "sample_obs"]
+
+
+def feedback_case(seed: int, idx: int, res: UnitResult) -> None:
+    """The "game loop": the subscriber reacts to every element it receives by pushing the next one into the (Subject)
+    source, from inside its on_next - i.e. while the operator is delivering from its timer / throttle / sampler callback.
+    The source stays serial (the nested emission is not inside another source emission); the new element is the pending
+    one at the next tick / after the next due time and must come out then."""
+    from reactivex.subject import Subject
+    r = case_rng(seed, ID, "feedback", idx)
+    op = FEEDBACK_OPS[idx % len(FEEDBACK_OPS)]
+    d = r.choice([1, 5, 5, 10, 2.5])
+    n = r.randint(1, 5)               # elements pushed by the feedback (after the first, external one)
+    first = r.choice([0, 0, 7, -3])
+    complete = r.choice([None, None, "quiet", "pending"])
+    lab = Lab(r.choice(["num", "dt"]))
+    T.arm(lab)
+    src: Any = Subject()
+    pushed = [0]
+
+    def on_recv(kind: str, value: Any, obs: Any) -> None:
+        if kind == "N" and pushed[0] < n:
+            pushed[0] += 1
+            src.on_next(value + 1)
+    top = lab.observer("top", inner=False, on_recv=on_recv)
+    t_first = SUB_AT + 0.5            # never on a tick (periods are multiples of 0.5 >= 1)
+    if op in ("debounce", "throttle_with_timeout"):
+        f = ops.debounce if op == "debounce" else ops.throttle_with_timeout
+        o = src.pipe(f(T.due(lab, r.choice(T.SHAPES_REL), rel=d), scheduler=lab.ts))
+        times = [t_first + (i + 1) * d for i in range(n + 1)]
+    elif op == "throttle_with_mapper":
+        cnt = [0]
+
+        def mapper(x: Any) -> Any:
+            cnt[0] += 1
+            return lab.cold("th%d" % cnt[0], [(d, "N", "fire")] + ([(d, "C", None)] if x % 2 else []))
+        o = src.pipe(ops.throttle_with_mapper(mapper))
+        times = [t_first + (i + 1) * d for i in range(n + 1)]
+    elif op == "sample_period":
+        o = src.pipe(ops.sample(T.due(lab, r.choice(T.SHAPES_REL), rel=d), scheduler=lab.ts))
+        times = [SUB_AT + (i + 1) * d for i in range(n + 1)]
+    else:
+        sampler = lab.cold("sm", [((i + 1) * d, "N", "tick") for i in range(n + 9)])
+        o = src.pipe(ops.sample(sampler))
+        times = [SUB_AT + (i + 1) * d for i in range(n + 1)]
+    lab.at(SUB_AT, lambda: top.subscribe_to(o))
+    lab.at(t_first, lambda: src.on_next(first))
+    expected = [(t, "N", first + i) for i, t in enumerate(times)]
+    t_done = None
+    if complete == "quiet":
+        t_done = times[-1] + 3 * d + 0.25
+    elif complete == "pending" and n >= 1:
+        t_done = times[-2] + d / 4.0          # the last element is pending when the source completes
+    if t_done is not None:
+        lab.at(t_done, src.on_completed)
+        if op.startswith("sample"):
+            # sample completes at the first tick after the source completed; a pending element is delivered at that tick
+            k = int((t_done - SUB_AT) // d) + 1
+            t_c = SUB_AT + k * d
+            expected = [e for e in expected if e[0] <= t_c] + [(t_c, "C", None)]
+        else:
+            # debounce / throttle_with_mapper flush the pending element and complete at once
+            if complete == "pending":
+                expected = expected[:-1] + [(t_done, "N", expected[-1][2]), (t_done, "C", None)]
+            else:
+                expected.append((t_done, "C", None))
+    lab.at(times[-1] + 6 * d + 20.5, top.dispose)
+    lab.run()
+    got = top.timed()
+    desc = {"family": "feedback", "op": op, "due_or_period": d, "feedback_elements": n, "first": first, "source_completes": complete, "clock": lab.clock_kind}
+    res.case(key=desc, nontrivial=True, sample={"case": desc, "expected": show_timed(expected), "observed": show_timed(got)} if idx % 60 == 0 else None)
+    res.count("feedback_cases")
+    res.count("feedback_elements_pushed_from_inside_a_delivery", pushed[0])
+    if T.spun(lab):
+        res.violation("C16:%s:feedback:same-instant-livelock" % op, {"case": desc}, {"seed": seed, "idx": idx, "family": "feedback"})
+        return
+    why = match_expected(expected, got)
+    if why is not None:
+        res.violation("C16:%s:feedback" % op, {"why": why, "case": desc, "expected": show_timed(expected), "observed": show_timed(got)},
+                      {"seed": seed, "idx": idx, "family": "feedback"})
+
+
 def run_unit(unit: dict, res: UnitResult) -> None:
     for idx in range(unit["lo"], unit["hi"]):
         run_case(unit["seed"], idx, res)
+        if idx % 8 == 0:
+            feedback_case(unit["seed"], idx // 8, res)
 
 
 def replay(rep: dict, res: UnitResult) -> None:
+    if rep.get("family") == "feedback":
+        feedback_case(rep["seed"], rep["idx"], res)
+        return
     run_case(rep["seed"], rep["idx"], res)
